@@ -128,7 +128,7 @@ Print Assumptions C14_example.
    init() fills).  Proved for every input so far: the generated tables are the model's character classes, and
    the generated redactEmailCheckNumber returns what the model's check_number returns (no panic, fuel
    suffices).  A change of these parts of the Go file changes the generated term and breaks the proof.  The other
-   generated functions are compared with the real Go code by bin/go2coq-selftest only (equivalence proofs: todo). ---- *)
+   generated functions: see below (redactEmail1 / redactEmail: self-test only so far). ---- *)
 Theorem C14_generated_tables_agree :
   forall c : N, (c < 256)%N ->
     GoSem.go_index C14Gen.validWordChars (GoSem.int_of_byte c) = GoSem.GOk (is_word c) /\
@@ -149,3 +149,39 @@ Theorem C14_generated_redactEmailCheckNumber_numeric :
   forall d : bytes, exists b, C14Gen.redactEmailCheckNumber d = GoSem.GOk b /\ (b = true <-> numeric d).
 Proof. exact C14GenEquiv.check_number_gen_numeric. Qed.
 Print Assumptions C14_generated_redactEmailCheckNumber_numeric.
+
+(* The scanning functions.  Go's int against the model's nat / option: -1 is None ([opt_int]); the text consists
+   of bytes ([bytes_ok]: every element < 256 - the lookup tables are indexed by a byte) and atIndex is a position
+   in the text, as in every call.  Each generated function returns a value (no panic, fuel suffices) and it is the
+   model's. *)
+Theorem C14_generated_redactFindEmailStart_agrees :
+  forall (t : bytes) (atIndex limitStart : nat),
+    C14GenEquiv.bytes_ok t -> atIndex <= length t ->
+    exists r, find_start t atIndex limitStart = Ok r /\
+              C14Gen.redactFindEmailStart t (Z.of_nat atIndex) (Z.of_nat limitStart) = GoSem.GOk (C14GenEquiv.opt_int r).
+Proof. exact C14GenEquiv.find_start_gen_eq. Qed.
+Print Assumptions C14_generated_redactFindEmailStart_agrees.
+
+Theorem C14_generated_redactFindEmailEnd_agrees :
+  forall (t : bytes) (atIndex : nat),
+    C14GenEquiv.bytes_ok t -> atIndex < length t ->
+    exists r, find_end t atIndex = Ok r /\
+              C14Gen.redactFindEmailEnd t (Z.of_nat atIndex) = GoSem.GOk (C14GenEquiv.opt_int r).
+Proof. exact C14GenEquiv.find_end_gen_eq. Qed.
+Print Assumptions C14_generated_redactFindEmailEnd_agrees.
+
+Theorem C14_generated_redactFindEmailBoundary_agrees :
+  forall (t : bytes) (atIndex limitStart : nat),
+    C14GenEquiv.bytes_ok t -> atIndex < length t ->
+    exists s e, find_boundary t atIndex limitStart = Ok (s, e) /\
+                C14Gen.redactFindEmailBoundary t (Z.of_nat atIndex) (Z.of_nat limitStart) =
+                GoSem.GOk (C14GenEquiv.opt_int s, C14GenEquiv.opt_int e).
+Proof. exact C14GenEquiv.find_boundary_gen_eq. Qed.
+Print Assumptions C14_generated_redactFindEmailBoundary_agrees.
+
+Theorem C14_generated_redactEmailFindFirst_agrees :
+  forall t : bytes,
+    C14GenEquiv.bytes_ok t ->
+    exists r, find_first t = Ok r /\ C14Gen.redactEmailFindFirst t = GoSem.GOk (C14GenEquiv.opt_int r).
+Proof. exact C14GenEquiv.find_first_gen_eq. Qed.
+Print Assumptions C14_generated_redactEmailFindFirst_agrees.
